@@ -1,7 +1,7 @@
 /* modstub - fixture module for C20.  One shared object, copied to m0.so .. m5.so;
  * the real iauthd-c loads the copies.  Every entry point appends one event line
  * to $VERIF_MODLOG; the constructor declares the dependencies listed for its
- * own name in $VERIF_MODGRAPH ("m0:m1,m2;m1:m3").
+ * own name in $VERIF_MODGRAPH ("m0:m1,m2;m1:m3"; "m3:!m0" = m3 declares itself a back end of m0).
  */
 #include <fcntl.h>
 #include <stdio.h>
@@ -11,6 +11,7 @@
 
 struct module;
 void module_depends(const char *name, ...);
+void module_antidepends(const char *name, ...);
 const char *module_get_name(const struct module *mod);
 
 static char myname[64];
@@ -62,8 +63,13 @@ void module_constructor(const char name[])
         }
         graph = *semi ? semi + 1 : semi;
     }
-    for (ii = 0; ii < ndeps; ++ii)
-        module_depends(deps[ii], (const char *)NULL);
+    for (ii = 0; ii < ndeps; ++ii) {
+        /* "!name": this module is a back-end provider for <name> (README: must be unloaded after it) */
+        if (deps[ii][0] == '!')
+            module_antidepends(deps[ii] + 1, (const char *)NULL);
+        else
+            module_depends(deps[ii], (const char *)NULL);
+    }
     ev("ctor-end", myname);
 }
 
